@@ -547,7 +547,38 @@ def rule_e(ctx: Ctx) -> None:
     ctx.min_instances("delegate_option_obligations", n, 10)
 
 
-RULES = [rule_a, rule_b, rule_c, rule_d, rule_e]
+def _partial_error_reads(fn: ast.AST) -> list[ast.AST]:
+    """subscripts / slices of `<x>.errors` and early exits from loops over it: reads that take part of an exception's error list."""
+    out: list[ast.AST] = []
+    for x in ast.walk(fn):
+        if isinstance(x, ast.Subscript) and isinstance(x.value, ast.Attribute) and x.value.attr == "errors":
+            out.append(x)
+        if isinstance(x, ast.Call) and call_name(x) in ("next", "seq_get", "first") and x.args and any(isinstance(a, ast.Attribute) and a.attr == "errors" for a in ast.walk(x.args[0])):
+            out.append(x)
+    return out
+
+
+def rule_f(ctx: Ctx) -> None:
+    ctx.rule("C14.f", "the aggregated exception carries every collected error: merge_errors() (which builds ParseError.errors for check_errors at the RAISE level and for parse_into's "
+                      "combined failure) iterates each exception's `.errors` list whole — no subscript, slice or first-element read of it: an exception re-raised from a nested "
+                      "parse carries several entries, which WARN logs one by one, so RAISE would report fewer errors than the other levels see")
+    ctx.require(len(_partial_error_reads(ast.parse("def m(errors):\n    return [e.errors[0] for e in errors if e.errors]\n"))) == 1,
+                "internal: C14.f matcher no longer recognises its positive control")
+    f = ctx.repo.func("sqlglot.errors", "merge_errors")
+    whole = [g for x in ast.walk(f.node) if isinstance(x, (ast.ListComp, ast.GeneratorExp)) for g in x.generators if isinstance(g.iter, ast.Attribute) and g.iter.attr == "errors"]
+    whole += [x for x in ast.walk(f.node) if isinstance(x, ast.For) and isinstance(x.iter, ast.Attribute) and x.iter.attr == "errors"]
+    whole += [x for x in ast.walk(f.node) if isinstance(x, ast.Call) and call_name(x) in ("extend", "chain.from_iterable", "itertools.chain.from_iterable") or (isinstance(x, ast.Starred) and isinstance(x.value, ast.Attribute) and x.value.attr == "errors")]
+    partial = _partial_error_reads(f.node)
+    ctx.count("whole_iterations", len(whole))
+    for x in partial:
+        ctx.fail(f.module, x, f.key, x, f"`{norm(x, 60)}` takes part of an exception's error list: the entries behind it are dropped from the aggregated ParseError.errors, so the RAISE "
+                                        f"level (and parse_into's combined failure) reports fewer errors than were collected and than WARN logs")
+    if not partial:
+        ctx.require(bool(whole), "anchor vanished: merge_errors() no longer iterates `<exception>.errors`")
+        ctx.ok(f"{f.key}|every entry of every exception is kept", {"iterations": len(whole)})
+
+
+RULES = [rule_a, rule_b, rule_c, rule_d, rule_e, rule_f]
 EXPLANATION = (
     "Exhaustive static discharge of structural obligations that are necessary for C14: who-may-read confinement of "
     "the level/error state over every attribute access in the package, report-only shape of level-guarded branches, "
